@@ -74,6 +74,12 @@ func vfTamper(rt *rapid.T, resp []byte, other []byte, id refobfs4.Identity) ([]b
 	case k >= 10:
 		// informed middlebox: knows the bridge line, so it can repair mark and MAC
 		bit := rapid.IntRange(0, 511).Draw(rt, "informedBit")
+		if bit == 254 || bit == 255 {
+			// the two pad bits of the representative are not part of the key and are
+			// authenticated only by the (public-key) MAC: changing them and repairing
+			// the MAC changes nothing the client could or should notice
+			bit -= 2
+		}
 		body := append([]byte(nil), resp[:l-32]...)
 		body[bit/8] ^= 1 << uint(bit%8)
 		fixed := refobfs4.ReMAC(id, body, vfHourNow())
@@ -348,6 +354,11 @@ func vfC02Case(rt *rapid.T, c *ev.Collector) {
 		}
 		mod, what := vfTamper(rt, resp, other, refobfs4.Identity{Pub: br.ID.Pub, NodeID: br.ID.NodeID})
 		desc = "tamper: " + what
+		if rl := len(resp) - refobfs4.SeedFrameLen; len(mod) >= rl && bytes.Equal(mod[:rl], resp[:rl]) {
+			// e.g. a byte inserted in front of an equal byte: the response proper is
+			// unchanged, only what follows it is shifted - not a modification of the response
+			rt.Skip("modification left the response itself unchanged")
+		}
 		// the server also sends data right away: none of it may surface
 		if r, _, _ := p.Sv.Write(vfCounterStream(1, 0, 300)); r.Failed() {
 			rt.Fatalf("VIOL[c02-panic]: server write: %s", r)
